@@ -3,6 +3,7 @@ CONSTANTS
  SeqLen = 9
  GuardLow = TRUE
  CapHigh = TRUE
+ AcceptAtFloor = TRUE
 INVARIANT TypeOK
 INVARIANT TargetInRange
 INVARIANT KBound
@@ -10,6 +11,7 @@ INVARIANT NoStaleRead
 INVARIANT ScaledInTable
 PROPERTY AfterReject
 PROPERTY FlagsFollow
+PROPERTY NoRejectAtFloor
 PROPERTY RejectHasSource
 PROPERTY Progress
 CONSTRAINT Bnd
